@@ -542,18 +542,27 @@ class Configuration(_Configuration):
         self._previous_neighbors = {}
         self._cleanup()
 
+    def _abort_reload(self) -> None:
+        # _previous_neighbors is only populated between _clear() and _commit_reload(): an exception
+        # which interrupts _reload() in that window must not leave the configuration empty
+        if self._previous_neighbors:
+            self._rollback_reload()
+
     def reload(self) -> bool:
         try:
             return self._reload()
         except KeyboardInterrupt:
+            self._abort_reload()
             return self.error.set('configuration reload aborted by ^C or SIGINT')
         except Error as exc:
+            self._abort_reload()
             if getenv().debug.configuration:
                 raise
             return self.error.set(
                 f'problem parsing configuration file line {self.parser.index_line}\nerror message: {exc}',
             )
         except Exception as exc:
+            self._abort_reload()
             if getenv().debug.configuration:
                 raise
             return self.error.set(
@@ -573,15 +582,20 @@ class Configuration(_Configuration):
         # clearing the current configuration to be able to re-parse it
         self._clear()
 
+        # from here until _commit_reload() the neighbors are parked in _previous_neighbors:
+        # every way out which is not a commit has to put them back
         if self._text:
             if not self.parser.set_text(fname):
+                self._rollback_reload()
                 return False
         else:
             # resolve any potential symlink, and check it is a file
             target = os.path.realpath(fname)
             if not os.path.isfile(target):
+                self._rollback_reload()
                 return False
             if not self.parser.set_file(target):
+                self._rollback_reload()
                 return False
 
         self.process.add_api()
